@@ -290,6 +290,79 @@ pub fn run(rep: &mut Rep) {
     let _ = rc::varint_len(1);
     second_connection(rep, &reqs, idx);
     largest_packets(rep);
+    abandoned_oversized(rep, &reqs);
+}
+
+/// The caller gives up on an oversized request (drops its future: a timeout around the call) after it has been queued and
+/// before the context gets to refuse it. The refusal then has nobody to go to - and must still be nothing but a refusal:
+/// not a byte written, run() still serving, the next fitting request written in full.
+fn abandoned_oversized(rep: &mut Rep, reqs: &[(String, OpSpec)]) {
+    let names = ["disconnect-props", "pub0-100", "pub1-100", "pub2-100", "pub1-300", "pub2-16384", "pub1-props", "sub-2", "unsub-2", "unsub-10", "sub-up"];
+    let chosen: Vec<&(String, OpSpec)> = reqs.iter().filter(|(n, _)| names.contains(&n.as_str())).collect();
+    rep.note(&format!("abandoned oversized requests: {} requests (every kind) x M in {{L-1, L/2, 16}} (M < L) queued while the context is busy elsewhere, their futures dropped, then the context runs: nothing written, run() pending, a ping afterwards is written and completes", chosen.len()));
+    let mut idx = 9_600_000u64;
+    for (name, spec) in chosen {
+        let mut twin = session(rep.seed, None, Some(2));
+        let w0 = twin.written_len();
+        twin.start_op(0, spec.clone());
+        twin.settle();
+        let l = (twin.written_len() - w0) as u32;
+        if l < 4 {
+            continue;
+        }
+        for m in [l - 1, (l / 2).max(2), 16u32.min(l - 1)] {
+            for with_live in [false, true] {
+                let id = format!("abandoned:{name}:M{m}:{}", with_live as u8);
+                idx += 1;
+                if !rep.take(idx, &id) {
+                    continue;
+                }
+                let mut sim = session(rep.seed, Some(m), Some(2));
+                // optionally a second, live request of the same kind queued behind the abandoned one (refused as well)
+                sim.hold_ctx = true;
+                let op = sim.start_op(0, spec.clone());
+                sim.settle();
+                let live = if with_live { Some(sim.start_op(0, spec.clone())) } else { None };
+                sim.settle();
+                sim.drop_op(op);
+                let w1 = sim.written_len();
+                sim.hold_ctx = false;
+                sim.settle();
+                rep.add("evaluations", 1);
+                rep.add("abandoned_oversized_requests", 1);
+                rep.distinct(&("abandoned", name, m, with_live));
+                let kind = spec.kind();
+                for p in sim.panics.clone() {
+                    viol(rep, format!("C12/panic/{p}"), &id, format!("panic: {p}"), &sim);
+                }
+                if sim.written_len() != w1 {
+                    viol(rep, format!("C12/oversized-packet-written/{kind}/abandoned"), &id, format!("L = {l} > M = {m}: {} bytes written for a request whose future had been dropped", sim.written_len() - w1), &sim);
+                }
+                if let Some(r) = sim.run_result() {
+                    viol(rep, format!("C12/run-ended-on-oversized/{kind}/abandoned"), &id, format!("L = {l} > M = {m}, the request's future dropped before the refusal: run() returned {:?}", r), &sim);
+                    continue;
+                }
+                if let Some(lv) = live {
+                    if !matches!(sim.ops[lv].out.as_ref().and_then(|o| o.err()), Some(ErrSum::MaximumPacketSizeExceeded)) {
+                        viol(rep, format!("C12/oversized-not-refused/{kind}/behind-abandoned"), &id, format!("the live request queued behind the abandoned one: {:?}", sim.ops[lv].out.as_ref().map(|o| o.brief())), &sim);
+                    }
+                }
+                // still serving: a ping (2 bytes, fits any M >= 2) goes out and completes
+                let w2 = sim.written_len();
+                let p = sim.start_op(0, OpSpec::Ping);
+                sim.settle();
+                let wrote: Vec<u8> = sim.writer.0.borrow().written[w2..].to_vec();
+                sim.feed_packet(&SPacket::Pingresp);
+                sim.settle();
+                let done = sim.ops[p].out.as_ref().map(|o| o.is_ok()).unwrap_or(false);
+                if wrote != [0xc0, 0x00] || !done {
+                    viol(rep, format!("C12/fitting-packet-not-written-in-full/ping/after-abandoned-{kind}"), &id, format!("after the refused, abandoned request a ping wrote {:02x?} and completed: {done}; run() = {:?}", wrote, sim.run_result()), &sim);
+                } else {
+                    rep.sample(|| format!("{id}: refused without a trace, run() serving"));
+                }
+            }
+        }
+    }
 }
 
 /// The largest packets MQTT can carry (remaining length 268 435 455, 268 435 456 to 268 435 460 bytes in all): no limit
